@@ -351,6 +351,7 @@ class Program:
     def __init__(self):
         self.records = {}      # cname -> {'fields': [(name, irtype)], 'bases': [cname], 'qual': str}
         self.static_ids = set()
+        self.extra_dumps = set()
         self.functions = {}    # cname -> Function
         self.rules = {}        # rule name -> count
         self.used_types = []   # types needing C declarations, in dependency order
@@ -464,7 +465,19 @@ class Program:
                 ent = self.find(parent, name, nparams=nargs)
                 self.rule('callee defined in another translation unit: resolved by qualified name and arity')
             except ExtractError:
-                return None
+                ent = None
+                # a file-local helper outside namespace romea (anonymous namespace at file scope) is not in the filtered dump: dump it by name
+                key = (tr.unit.tu, name)
+                if not parent and name and re.match(r'^[A-Za-z_]\w*$', name) and key not in self.extra_dumps:
+                    self.extra_dumps.add(key)
+                    try:
+                        self.add_unit(tr.unit.tu, tr.unit.workdir, flt=name)
+                        ent = self.find(parent, name, nparams=nargs)
+                        self.rule('file-local helper function outside namespace romea: dumped on demand by name')
+                    except ExtractError:
+                        ent = None
+                if ent is None:
+                    return None
         u, parent, n = ent
         rb = n.get('range', {}).get('begin', {})
         rb = rb.get('expansionLoc', rb)
@@ -1170,6 +1183,9 @@ class FnTranslator:
             if t[0] in ('string',):
                 if not args:
                     return [('assign', lv, ('const', t, 0))]
+                if len(args) == 1 and self.T(args[0])[0] == 'string':
+                    self.rule('std::string copy construction -> copy of the handle')
+                    return [('assign', lv, self.expr(args[0]))]
         self.err(e, 'cannot construct %r' % (t,))
 
     def ctor_name(self, t, e):
@@ -2140,7 +2156,7 @@ class FnTranslator:
         n0 = self.strip(n)
         if n0['kind'] == 'CXXDefaultArgExpr' and not self.inner(n0):
             nm = self.tmp(t)
-            self.pre.append(('decl', nm, t, None))
+            self.pre.append(('decl', nm, t, ('unspecified', t)))
             self.rule('default argument whose value is not visible in the AST: left unspecified (any value)')
             return ('var', nm, t)
         while n0['kind'] in ('ImplicitCastExpr', 'CXXFunctionalCastExpr') and n0.get('castKind') in ('NoOp', 'ConstructorConversion'):
@@ -2381,6 +2397,9 @@ class FnTranslator:
             # operands may have different orientations (row.dot(col)): pair the k-th coefficients
             ocell = lambda k: o.get(k, 0) if o.cols == 1 else o.get(0, k)
             return fold('+', [('bin', '*', ev.get(i, j), ocell(max(i, j)), st) for i, j in cells])
+        if name == 'trace' and ev.rows == ev.cols:
+            self.rule('eigen: trace expanded (left fold)')
+            return fold('+', [ev.get(i, i) for i in range(ev.rows)])
         if name == 'sum':
             self.rule('eigen: sum expanded (left fold)')
             return fold('+', [ev.get(i, j) for i, j in cells])
@@ -2454,6 +2473,9 @@ class FnTranslator:
             v, lo, hi = [self.expr(x) for x in args]
             self.rule('std::clamp(v, lo, hi) -> (v < lo) ? lo : (hi < v) ? hi : v')
             return ('cond', ('bin', '<', v, lo, ('bool',)), lo, ('cond', ('bin', '<', hi, v, ('bool',)), hi, v, t), t)
+        if name == 'dummy_precision' and not args and not self.is_repo_decl(callee):
+            self.rule('Eigen::NumTraits<T>::dummy_precision() -> 1e-12 (double) / 1e-5 (float)')
+            return ('const', t, '1e-12' if t == ('float', 64) else '1e-5')
         if name in ('move', 'forward'):
             return self.expr(args[0]) if is_scalar(t) or t[0] == 'string' else self.lvalue(args[0])
         if name == 'exchange' and len(args) == 2 and not self.is_repo_decl(callee):
